@@ -97,7 +97,13 @@ pub fn kill_point(site: &'static str) {
 pub fn buggify(site: &'static str) -> bool {
     match handler() {
         Some(handler) => handler.buggify(site),
-        None => false,
+        None => {
+            // For subprocesses: a comma-separated list of sites that fail.
+            match std::env::var("ROUTINATOR_VERIF_BUGGIFY") {
+                Ok(sites) => sites.split(',').any(|s| s.trim() == site),
+                Err(_) => false,
+            }
+        }
     }
 }
 
